@@ -18,10 +18,16 @@ package httpcache
 //@   ensures forall k string :: has(result.Header, k) == has(req.Header, k) && hget(result.Header, k) == hget(req.Header, k)   # name: same-fields
 //@   ensures forall k string :: joinAll(result.Header, k) == joinAll(req.Header, k)                                           # name: same-field-lines
 
+// lastCondEtag / lastCondLM: the validators the last conditional request was built from (C20: the
+// background revalidation is built from the validators that are stored, not from a header that
+// has already been trimmed for the caller)
+//@ ghost var lastCondEtag string
+//@ ghost var lastCondLM string
 //@ func withConditionalHeaders
 //@   property C02 C16 C18 C20
 //@   requires req != nil
-//@   pure
+//@   assigns lastCondEtag, lastCondLM
+//@   ensures lastCondEtag == hget(storedHdr, "Etag") && lastCondLM == hget(storedHdr, "Last-Modified")      # ghost-update
 //@   let etag = hget(storedHdr, "Etag")
 //@   let lm = hget(storedHdr, "Last-Modified")
 //@   ensures result != nil                                                                    # name: non-nil
@@ -105,6 +111,7 @@ package httpcache
 //@   ensures result0 == old(stored.Data) && result1 == nil                         # name: returns-stored
 //@   ensures lastVerdictStale == old(lastVerdictStale)                             # name: no-new-freshness-verdict   props: C09
 //@   ensures goroutinesSpawned == old(goroutinesSpawned) + 1                       # name: exactly-one-background-revalidation   props: C20
+//@   ensures lastCondEtag == old(hget(stored.Data.Header, "Etag")) && lastCondLM == old(hget(stored.Data.Header, "Last-Modified"))   # name: background-request-built-from-the-stored-validators   props: C20
 //@   ensures upstreamCalls == old(upstreamCalls)                                    # name: no-upstream-in-foreground
 //@   ensures result0 != nil                                                         # name: non-nil
 //@   ensures exists n int :: hget(result0.Header, "Age") == itoa(n) && n >= secsOf(old(fAge(freshness, now)))        # name: age-generated   props: C11
